@@ -371,6 +371,34 @@ func withFallbackVariants(specs []TypeSpec) []TypeSpec {
 		out = append(out, v)
 	}
 
+	// the less common shape of an endpoint: with its HTTP cache switched on (the settings object is one more
+	// thing a prototype and its variants could share)
+	for _, sp := range specs {
+		var key string
+
+		for _, k := range []string{"endpoint", "identity_info_endpoint", "jwks_endpoint", "introspection_endpoint"} {
+			if _, ok := sp.Cat[k].(map[string]any); ok {
+				key = k
+			}
+		}
+
+		if key == "" {
+			continue
+		}
+
+		v := sp
+		v.Name = sp.Name + "_httpcache"
+		v.Cat = deepCopy(sp.Cat)
+		v.Cat[key].(map[string]any)["http_cache"] = map[string]any{"enabled": true, "default_ttl": "30s"} //nolint:forcetypeassert
+		v.Overrides = sp.Overrides
+
+		if len(v.Overrides) > 2 {
+			v.Overrides = v.Overrides[:2]
+		}
+
+		out = append(out, v)
+	}
+
 	return out
 }
 
